@@ -5,6 +5,7 @@ cd "$(dirname "$0")"
 export GOFLAGS=-mod=mod GOPROXY=off GOSUMDB=off GOTOOLCHAIN=local
 mkdir -p build evidence replays
 ./harness/effects/regen.sh /repo   # C19: coq/gen/Effects.v from the Go source (also warms the translator build)
+./harness/trans/regen.sh /repo     # T01: coq/gen/Trans.v from the Go source (also warms the translator build)
 ./coq/gen_project.sh
 ( cd coq && timeout 7000 make -j"$(nproc)" ) > build/coq-build.log 2>&1 || { tail -40 build/coq-build.log; exit 1; }
 ./driver/build.sh
